@@ -49,11 +49,12 @@ Section WfTypes.
     unfold norm_defs in *. cbn [map fst snd]. cbn [snd] in H2. rewrite (type_wf_norm t H2). f_equal. apply IH. assumption.
   Qed.
 
-  Lemma arraylen_errs_wf : forall l, Forall (fun a => type_wf P (snd a)) l -> arraylen_errs l = [].
+  Lemma arraylen_errs_wf : forall mk l, Forall (fun a => type_wf P (snd a)) l -> arraylen_errs mk l = [].
   Proof.
-    induction l as [|[k t] r IH]; intro H; [reflexivity|]. inversion H; subst. unfold arraylen_errs in *.
-    cbn [flat_map snd]. cbn [snd] in H2. destruct t as [p|p [|n|v]]; try (cbn [app]; apply IH; assumption).
-    destruct H2.
+    intros mk l H. unfold arraylen_errs. generalize 0.
+    induction l as [|[k t] r IH]; intro n; [reflexivity|]. inversion H; subst.
+    cbn [index_from flat_map fst snd]. cbn [snd] in H2.
+    destruct t as [p|p [|m|v]]; try (cbn [app]; apply IH; assumption). destruct H2.
   Qed.
 
   Lemma outs_wf_call_outs : forall outs, outs_wf P outs -> call_outs outs = outs.
@@ -64,7 +65,7 @@ Section WfTypes.
 
   Lemma outs_wf_visit_errs : forall ti pi outs, outs_wf P outs -> outs_visit_errs ti pi outs = [].
   Proof.
-    intros ti pi outs [Hnd Hty]. unfold outs_visit_errs. rewrite (arraylen_errs_wf _ Hty).
+    intros ti pi outs [Hnd Hty]. unfold outs_visit_errs. rewrite (arraylen_errs_wf _ _ Hty).
     rewrite dup_positions_nodup; [reflexivity | assumption | intros k _ []].
   Qed.
 
@@ -123,13 +124,13 @@ Proof.
   rewrite Forall_forall in Hs, Ht.
   rewrite (flat_map_nil _ _ _ (index_from 0 (p_structs p))).
   2:{ intros [i s] Hin. apply in_index_from_inv in Hin. destruct (Hs s Hin) as [Hnd Hty].
-      unfold struct_visit_errs. cbn [fst snd]. rewrite (arraylen_errs_wf p _ Hty).
+      unfold struct_visit_errs. cbn [fst snd]. rewrite (arraylen_errs_wf p _ _ Hty).
       rewrite dup_positions_nodup; [reflexivity | assumption | intros k _ []]. }
   rewrite dup_positions_nodup; [| rewrite map_map; exact Hns | intros k _ []].
   rewrite (flat_map_nil _ _ _ (index_from 0 (p_tasks p))).
   2:{ intros [i t] Hin. apply in_index_from_inv in Hin.
       destruct (Ht t Hin) as (Hnd & Hty & _ & _ & Hb & _).
-      unfold task_visit_errs. cbn [fst snd]. rewrite (arraylen_errs_wf p _ Hty).
+      unfold task_visit_errs. cbn [fst snd]. rewrite (arraylen_errs_wf p _ _ Hty).
       rewrite dup_positions_nodup; [| assumption | intros k _ []].
       rewrite body_visit_errs_concat. cbn [app]. apply concat_from_nil.
       intros j x Hx. rewrite Forall_forall in Hb. eapply stmt_wf_visit_errs. apply Hb. exact Hx. }
@@ -472,11 +473,11 @@ Section WfPaths.
   Lemma path_gtvl_ok : forall rest lv t t' sd e1,
     path_type p lv t (e1 :: rest) = Some t' -> models sd t ->
     forallb (fun e => negb (is_index e)) (e1 :: rest) = true ->
-    gtvl_loop E sd e1 rest = Ok t'.
+    gtvl_loop E sd e1 rest = Some t'.
   Proof.
     induction rest as [|e2 rest IH]; intros lv t t' sd e1 Hp Hm Hf.
     - destruct e1; try discriminate. destruct (path_type_field _ _ _ _ _ _ Hp Hm) as (t1 & Ha & Hp1).
-      cbn [path_type] in Hp1. inversion Hp1; subst. cbn [gtvl_loop attr_of]. rewrite Ha. reflexivity.
+      cbn [path_type] in Hp1. inversion Hp1; subst. cbn [gtvl_loop attr_of]. exact Ha.
     - cbn [forallb] in Hf. apply andb_true_iff in Hf. destruct Hf as [H1 Hf].
       destruct e1; try discriminate.
       destruct (path_type_field _ _ _ _ _ _ Hp Hm) as (t1 & Ha & Hp1).
@@ -486,7 +487,7 @@ Section WfPaths.
       destruct e2; try discriminate.
       destruct (path_type_struct_head _ _ _ _ _ Hp1) as (s1 & sd1 & -> & Hm1).
       cbn [gtvl_loop attr_of]. rewrite Ha. cbn [struct_of_type]. rewrite (models_struct_of_prim _ _ Hm1).
-      cbn [rbind]. eapply IH; [exact Hp1 | exact Hm1 | exact Hf].
+      eapply IH; [exact Hp1 | exact Hm1 | exact Hf].
   Qed.
 
   Lemma assoc_indexed_struct_inv : forall l i s sd,
@@ -573,14 +574,17 @@ Qed.
 Lemma vtype_eqb_refl : forall t, vtype_eqb t t = true.
 Proof. intro t. apply vtype_eqb_eq. reflexivity. Qed.
 
-Lemma plain_chain_fields : forall E es cur last,
-  plain_chain E cur last es = true -> forallb (fun e => negb (is_index e)) (last :: es) = true.
+Lemma index_free_access_safe : forall E es sd, path_index_free es = true -> access_safe_loop E sd es = true.
 Proof.
-  intros E es. induction es as [|e rest IH]; intros cur last H; cbn [plain_chain] in H; cbn [forallb].
-  - destruct last; cbn in *; try discriminate. reflexivity.
-  - destruct last; cbn [attr_of] in H; try discriminate. cbn [is_index negb andb].
-    destruct (assoc n (sd_attrs cur)) as [[p0|p0 l]|]; try discriminate.
-    destruct (struct_of_prim E p0) as [sd|]; [|discriminate]. eapply IH. exact H.
+  intros E es. induction es as [|e rest IH]; intros sd H; [reflexivity|].
+  unfold path_index_free in H. cbn [forallb] in H. apply andb_true_iff in H. destruct H as [He Hr].
+  destruct e; try discriminate. cbn [access_safe_loop].
+  destruct (assoc n (sd_attrs sd)) as [ty|]; [|reflexivity].
+  destruct rest as [|e2 rest2]; [reflexivity|].
+  assert (Hi : is_index e2 = false).
+  { cbn [forallb] in Hr. apply andb_true_iff in Hr. destruct Hr as [H2 _]. destruct (is_index e2); [discriminate|reflexivity]. }
+  rewrite Hi. destruct ty as [p0|p0 l]; [|reflexivity].
+  destruct (struct_of_prim E p0); [apply IH; exact Hr | reflexivity].
 Qed.
 
 Section WfTask.
@@ -596,61 +600,68 @@ Section WfTask.
   Lemma wf_var : forall v, assoc v (td_vars T) = var_type vars v.
   Proof. intro v. unfold var_type. apply (wf_td_vars p HWF). exact Htk. Qed.
 
-  (* ---- attribute paths as parameters and conditions ---- *)
+  (* ---- attribute paths as parameters, conditions and limits ---- *)
   Lemma wf_attribute_access : forall c lv v es t',
     param_path_type p vars lv v es = Some t' -> access_safe E T v es = true ->
     check_attribute_access E T c v es = ok_true.
   Proof.
     intros c lv v es t' Hp Hs. unfold param_path_type in Hp. unfold access_safe in Hs.
-    apply andb_true_iff in Hs. destruct Hs as [Hg Hs]. unfold check_attribute_access.
-    rewrite wf_var in *. destruct (var_type vars v) as [t|]; [|discriminate].
-    unfold grammar_path in Hg. destruct es as [|e rest]; [discriminate|]. destruct e; try discriminate.
+    unfold check_attribute_access. rewrite wf_var in *. destruct (var_type vars v) as [t|]; [|discriminate].
+    destruct es as [|e rest]; [discriminate|]. destruct e; try discriminate.
     destruct (path_type_struct_head p HWF _ _ _ _ _ Hp) as (s1 & sd1 & -> & Hm).
     rewrite (models_struct_of_prim p _ _ Hm) in *.
     eapply (path_caa_ok p HWF); [apply le_n | exact Hp | exact Hm | exact Hs].
   Qed.
 
   Lemma wf_gtvl : forall lv v es t',
-    param_path_type p vars lv v es = Some t' ->
-    forallb (fun e => negb (is_index e)) es = true ->
-    get_type_of_variable_list E T v es = Ok t'.
+    param_path_type p vars lv v es = Some t' -> path_index_free es = true ->
+    get_type_of_variable_list E T v es = Some t'.
   Proof.
     intros lv v es t' Hp Hf. unfold param_path_type in Hp. unfold get_type_of_variable_list.
     rewrite wf_var. destruct (var_type vars v) as [t|]; [|discriminate].
-    destruct es as [|e rest]; [discriminate|].
-    assert (He : is_index e = false).
-    { cbn [forallb] in Hf. apply andb_true_iff in Hf. destruct Hf as [H _]. destruct (is_index e); [discriminate|reflexivity]. }
-    destruct e; try discriminate.
+    destruct es as [|e rest]; [discriminate|]. destruct e; try discriminate.
     destruct (path_type_struct_head p HWF _ _ _ _ _ Hp) as (s1 & sd1 & -> & Hm).
-    cbn [struct_of_type]. rewrite (models_struct_of_prim p _ _ Hm). cbn [rbind].
+    cbn [struct_of_type]. rewrite (models_struct_of_prim p _ _ Hm).
     eapply (path_gtvl_ok p HWF); eassumption.
+  Qed.
+
+  Lemma wf_index_free_access : forall c lv v es t',
+    param_path_type p vars lv v es = Some t' -> path_index_free es = true ->
+    check_attribute_access E T c v es = ok_true.
+  Proof.
+    intros c lv v es t' Hp Hf. eapply wf_attribute_access; [exact Hp|].
+    unfold access_safe. destruct (assoc v (td_vars T)) as [[p0|p0 l]|]; try reflexivity.
+    destruct (struct_of_prim E p0); [apply index_free_access_safe; exact Hf | reflexivity].
   Qed.
 
   Lemma wf_single_path : forall c lv v es t',
     param_path_type p vars lv v es = Some t' -> (t' = TPlain TNumber \/ t' = TPlain TBoolean) ->
-    cond_path_safe E T v es = true -> check_single_path E T c v es = ok_true.
+    path_index_free es = true -> check_single_path E T c v es = ok_true.
   Proof.
-    intros c lv v es t' Hp Ht Hs. unfold cond_path_safe in Hs. apply andb_true_iff in Hs. destruct Hs as [Ha Hf].
-    unfold check_single_path. rewrite (wf_attribute_access c lv v es t' Hp Ha).
-    rewrite (wf_gtvl lv v es t' Hp Hf). destruct Ht as [-> | ->]; reflexivity.
+    intros c lv v es t' Hp Ht Hf. unfold check_single_path.
+    rewrite (wf_index_free_access c lv v es t' Hp Hf), (wf_gtvl lv v es t' Hp Hf).
+    destruct Ht as [-> | ->]; reflexivity.
+  Qed.
+
+  Lemma wf_check_limit : forall c lv lim,
+    limit_ok p vars lv lim = true -> limit_index_free lim = true -> check_limit E T c lim = ok_true.
+  Proof.
+    intros c lv lim Hl Hf. destruct lim as [n|v es]; [reflexivity|]. cbn [limit_ok limit_index_free check_limit] in *.
+    destruct (param_path_type p vars lv v es) as [t|] eqn:Hp; [|discriminate].
+    destruct t as [[| | |s]|]; try discriminate.
+    rewrite (wf_index_free_access c lv v es _ Hp Hf). cbn [expression_is_number].
+    rewrite (wf_gtvl lv v es _ Hp Hf). reflexivity.
   Qed.
 
   (* ---- operands of comparison / arithmetic operators ---- *)
-  Lemma plain_path_fields : forall v es, plain_path E T v es = true -> forallb (fun e => negb (is_index e)) es = true.
-  Proof.
-    intros v es H. unfold plain_path in H. destruct (assoc v (td_vars T)) as [[p0|p0 l]|]; try discriminate.
-    destruct (struct_of_prim E p0) as [sd|]; [|discriminate].
-    destruct es as [|e rest]; [reflexivity|]. eapply plain_chain_fields. exact H.
-  Qed.
-
   Lemma typed_num_operand : forall lv e,
-    expr_type p vars lv e = Some TyNum -> operand_safe E T e = true -> expression_is_number E T e = Ok true.
+    expr_type p vars lv e = Some TyNum -> expr_index_free e = true -> expression_is_number E T e = true.
   Proof.
-    intros lv e. induction e; intros Ht Hs; cbn [expr_type operand_safe expression_is_number] in *; try discriminate.
+    intros lv e. induction e; intros Ht Hs; cbn [expr_type expr_index_free expression_is_number] in *; try discriminate.
     - reflexivity.
     - destruct (param_path_type p vars lv v p0) as [t|] eqn:Hp; [|discriminate].
-      rewrite (wf_gtvl lv v p0 t Hp (plain_path_fields _ _ Hs)). cbn [rbind].
-      destruct t as [[| | |s]|]; try discriminate. reflexivity.
+      rewrite (wf_gtvl lv v p0 t Hp Hs). destruct t as [[| | |s]|]; try discriminate. reflexivity.
+    - destruct (expr_type p vars lv e) as [[| |]|]; discriminate.
     - apply IHe; assumption.
     - apply andb_true_iff in Hs. destruct Hs as [H1 H2].
       destruct (expr_type p vars lv e1) as [a|] eqn:Ha; [|discriminate].
@@ -660,16 +671,16 @@ Section WfTask.
   Qed.
 
   Lemma typed_str_operand : forall lv e,
-    expr_type p vars lv e = Some TyStr -> operand_safe E T e = true ->
-    expression_is_number E T e = Ok false /\
-    (paren_string p vars lv e = false -> expression_is_string E T e = Ok true).
+    expr_type p vars lv e = Some TyStr -> expr_index_free e = true ->
+    expression_is_number E T e = false /\
+    (paren_string p vars lv e = false -> expression_is_string E T e = true).
   Proof.
-    intros lv e. induction e; intros Ht Hs; cbn [expr_type operand_safe expression_is_number expression_is_string] in *;
+    intros lv e. induction e; intros Ht Hs; cbn [expr_type expr_index_free expression_is_number expression_is_string] in *;
       try discriminate.
     - split; reflexivity.
     - destruct (param_path_type p vars lv v p0) as [t|] eqn:Hp; [|discriminate].
-      rewrite (wf_gtvl lv v p0 t Hp (plain_path_fields _ _ Hs)). cbn [rbind].
-      destruct t as [[| | |s]|]; try discriminate. split; reflexivity.
+      rewrite (wf_gtvl lv v p0 t Hp Hs). destruct t as [[| | |s]|]; try discriminate. split; reflexivity.
+    - destruct (expr_type p vars lv e) as [[| |]|]; discriminate.
     - split; [apply IHe; assumption|]. unfold paren_string. cbn [expr_type]. rewrite Ht. discriminate.
     - destruct (expr_type p vars lv e1) as [a|]; [|discriminate].
       destruct (expr_type p vars lv e2) as [b|]; [|discriminate].
@@ -678,37 +689,32 @@ Section WfTask.
 
   (* ---- guards ---- *)
   Theorem wf_check_expression : forall c lv e ty,
-    expr_type p vars lv e = Some ty -> expr_safe E T e = true ->
+    expr_type p vars lv e = Some ty -> expr_index_free e = true ->
     string_path_checked p vars lv e = false ->
     check_expression E T c e = ok_true.
   Proof.
-    intros c lv e. unfold expr_safe. induction e; intros ty Ht Hs Hg;
-      apply andb_true_iff in Hs; destruct Hs as [Ho Hp];
-      cbn [expr_type check_expression expr_operands_safe expr_paths_safe string_path_checked] in *; try reflexivity.
+    intros c lv e. induction e; intros ty Ht Hs Hg;
+      cbn [expr_type check_expression expr_index_free string_path_checked] in *; try reflexivity.
     - destruct (param_path_type p vars lv v p0) as [t|] eqn:Hpt; [|discriminate].
-      eapply (wf_single_path c lv v p0 t Hpt); [|exact Hp].
+      eapply (wf_single_path c lv v p0 t Hpt); [|exact Hs].
       destruct t as [[| | |s]|]; try discriminate; auto.
     - destruct (expr_type p vars lv e) as [[| |]|] eqn:He; try discriminate.
-      eapply IHe; [reflexivity | rewrite Ho, Hp; reflexivity | exact Hg].
-    - eapply IHe; [exact Ht | rewrite Ho, Hp; reflexivity | exact Hg].
-    - destruct (expr_type p vars lv e1) as [a|] eqn:Ha; [|discriminate].
+      eapply IHe; [reflexivity | exact Hs | exact Hg].
+    - eapply IHe; [exact Ht | exact Hs | exact Hg].
+    - apply andb_true_iff in Hs. destruct Hs as [Hl Hr].
+      destruct (expr_type p vars lv e1) as [a|] eqn:Ha; [|discriminate].
       destruct (expr_type p vars lv e2) as [b|] eqn:Hb; [|discriminate].
-      destruct (is_cmp o) eqn:Hcmp; [|destruct (is_arith o) eqn:Har]; cbn [orb] in *.
-      + apply andb_true_iff in Ho. destruct Ho as [Hl Hr].
-        apply orb_false_iff in Hg. destruct Hg as [Hgl Hgr].
+      destruct (is_cmp o) eqn:Hcmp; [|destruct (is_arith o) eqn:Har].
+      + apply orb_false_iff in Hg. destruct Hg as [Hgl Hgr].
         destruct o; try discriminate; destruct a, b; try discriminate;
           first [ rewrite (typed_num_operand lv e1 Ha Hl), (typed_num_operand lv e2 Hb Hr); reflexivity
                 | destruct (typed_str_operand lv e1 Ha Hl) as [Hn1 Hs1];
                   destruct (typed_str_operand lv e2 Hb Hr) as [Hn2 Hs2];
-                  rewrite Hn1; cbn [rand rbind lift_bool]; rewrite (Hs1 Hgl), (Hs2 Hgr); reflexivity ].
-      + apply andb_true_iff in Ho. destruct Ho as [Hl Hr].
-        destruct o; try discriminate; destruct a, b; try discriminate;
+                  rewrite Hn1; cbn [andb]; rewrite (Hs1 Hgl), (Hs2 Hgr); reflexivity ].
+      + destruct o; try discriminate; destruct a, b; try discriminate;
           rewrite (typed_num_operand lv e1 Ha Hl), (typed_num_operand lv e2 Hb Hr); reflexivity.
-      + apply andb_true_iff in Ho. destruct Ho as [Hol Hor].
-        apply andb_true_iff in Hp. destruct Hp as [Hpl Hpr].
-        apply orb_false_iff in Hg. destruct Hg as [Hgl Hgr].
-        rewrite (IHe1 a eq_refl); [|rewrite Hol, Hpl; reflexivity | exact Hgl].
-        rewrite (IHe2 b eq_refl); [|rewrite Hor, Hpr; reflexivity | exact Hgr]. reflexivity.
+      + apply orb_false_iff in Hg. destruct Hg as [Hgl Hgr].
+        rewrite (IHe1 a eq_refl Hl Hgl). rewrite (IHe2 b eq_refl Hr Hgr). reflexivity.
   Qed.
 End WfTask.
 
@@ -889,10 +895,15 @@ Section WfLiterals.
       rewrite Hf in Hf'. inversion Hf'; subst sdf'.
       cbn [check_attr_type]. rewrite Ha, Hsp.
       rewrite dict_of_nodup by (rewrite map_map; cbn [fst]; exact Hnd).
-      apply go_fields_ok. intros kv Hin.
       assert (HQ : Forall (fun kv => Qj (snd kv)) fs)
         by (eapply Forall_impl; [|exact H]; intros a0 Ha0; apply Ha0).
-      apply (obj_fields_ok fs s1 sdf1 sd1 jctx HQ Hf Hattrs Hgo kv Hin).
+      rewrite check_missing_ok.
+      2:{ intros a Hin'. rewrite Hattrs in Hin'. rewrite Forall_forall in Hall. rewrite map_map. cbn [fst].
+          apply Hall. exact Hin'. }
+      rewrite (go_fields_ok (fun id' v' => if has_key id' (sd_attrs sd1) then check_attr_type E jctx jctx sd1 id' v'
+                                           else fail1 KUnknownAttrInLit jctx)); [reflexivity|].
+      intros kv Hin. destruct (obj_fields_ok fs s1 sdf1 sd1 jctx HQ Hf Hattrs Hgo kv Hin) as [Hk Hc].
+      rewrite Hk. exact Hc.
     - eapply Forall_impl; [|exact H]. intros a0 Ha0. apply Ha0.
     - (* array *)
       intros t' def id jctx ictx Hw Ha Hty. rewrite parse_json_arr.
